@@ -12,6 +12,7 @@ import (
 	"time"
 
 	corev1 "k8s.io/api/core/v1"
+	resourceapi "k8s.io/api/resource/v1"
 	schedv1 "k8s.io/api/scheduling/v1"
 	"k8s.io/apimachinery/pkg/api/resource"
 	metav1 "k8s.io/apimachinery/pkg/apis/meta/v1"
@@ -57,6 +58,11 @@ type World struct {
 	PriorityClasses []*schedv1.PriorityClass     `json:"priorityClasses,omitempty"`
 	Topologies      []*kaiv1alpha1.Topology      `json:"topologies,omitempty"`
 	ConfigMaps      []*corev1.ConfigMap          `json:"configMaps,omitempty"`
+	// Dynamic Resource Allocation (resource.k8s.io/v1); see dra.go. A world holding any of these
+	// runs with the DRA feature gate on.
+	ResourceClaims []*resourceapi.ResourceClaim `json:"resourceClaims,omitempty"`
+	ResourceSlices []*resourceapi.ResourceSlice `json:"resourceSlices,omitempty"`
+	DeviceClasses  []*resourceapi.DeviceClass   `json:"deviceClasses,omitempty"`
 }
 
 func (w *World) Clone() *World {
@@ -84,6 +90,15 @@ func (w *World) Clone() *World {
 	}
 	for _, o := range w.ConfigMaps {
 		c.ConfigMaps = append(c.ConfigMaps, o.DeepCopy())
+	}
+	for _, o := range w.ResourceClaims {
+		c.ResourceClaims = append(c.ResourceClaims, o.DeepCopy())
+	}
+	for _, o := range w.ResourceSlices {
+		c.ResourceSlices = append(c.ResourceSlices, o.DeepCopy())
+	}
+	for _, o := range w.DeviceClasses {
+		c.DeviceClasses = append(c.DeviceClasses, o.DeepCopy())
 	}
 	return c
 }
@@ -397,6 +412,7 @@ type PodOpt struct {
 	GPUGroups   []string // labels (for running fractional pods)
 	Received    string   // received-resource-type annotation
 	Labels      map[string]string
+	Claims      []string // names of ResourceClaims the pod references (spec.resourceClaims + container claims)
 	Mutate      func(p *corev1.Pod)
 }
 
@@ -466,6 +482,7 @@ func MkPod(o PodOpt) *corev1.Pod {
 	if o.Gated {
 		p.Spec.SchedulingGates = []corev1.PodSchedulingGate{{Name: "g"}}
 	}
+	AddPodClaims(p, o.Claims...)
 	if o.Mutate != nil {
 		o.Mutate(p)
 	}
